@@ -210,6 +210,25 @@ def result_constructions(body):
     return out
 
 
+def constructions_ctx(prog, b):
+    """SolvingResult constructions that decide what `b` returns: in b, in its closures, and in helper
+    functions of the SAT layer called from b (one level).  Each entry is (site, variant, conds, cbody):
+    `conds` are the branch facts under which the construction runs, expressed on locals of `cbody`
+    (for a helper: its conditions on its parameters translated to the caller's argument variables)."""
+    out = []
+    for body in [b] + prog.closures_of(b):
+        for s, v in result_constructions(body):
+            out.append((s, v, conditions(body, s.bb), body))
+    for cs, t in prog.callees(b, include_closures=True, virtual_dispatch=False):
+        if t.kind == "closure" or t is b or not in_sat_module(t) or not t.ret_ty.endswith(RESULT):
+            continue
+        if t.impl and t.impl.get("trait") == SATSOLVER:
+            continue  # delegation to another SatSolver method, judged on its own
+        for s, v in result_constructions(t):
+            out.append((s, v, flow.translated_conditions(prog, cs.body, cs, t, s.bb), cs.body))
+    return out
+
+
 def _verdict_of(body, conds):
     """classify conditions over an Option<bool> place: returns (place_key, 'sat'|'unsat'|'none'|None)"""
     by_place = {}
@@ -236,6 +255,30 @@ def _verdict_of(body, conds):
     return res
 
 
+def _none_edge_builds_unknown(cons):
+    """edge form of `no verdict -> Unknown` (for arms shared by several patterns, e.g. `Some(true) | None`):
+    in a body that builds results, from the `None` edge of a switch on the discriminant of an Option<bool>
+    every construction that can be reached is Unknown, and there is one"""
+    from ..core import switch_sites
+
+    by_body = {}
+    for s, v, _, _ in cons:
+        by_body.setdefault(s.body.id, (s.body, []))[1].append((s, v))
+    for body, sites in by_body.values():
+        for sw in switch_sites(body):
+            subj = switch_subject(body, sw)
+            if subj is None or not subj[1] or "core::option::Option<bool>" not in place_ty(body, subj[0]):
+                continue
+            for v, tb in sw.node["targets"]:
+                if v != "0":
+                    continue
+                reach = {tb} | body.blocks_reachable_from(tb, avoid={sw.bb})
+                got = {vv for s, vv in sites if s.bb in reach}
+                if got == {"Unknown"}:
+                    return True
+    return False
+
+
 def satsolver_impls(prog):
     return prog.impl_methods(SATSOLVER, "solve_under_assumptions"), prog.impl_methods(SATSOLVER, "solve")
 
@@ -253,9 +296,7 @@ def rule_verdict_tables(ctx, strict_parser=True):
         return []
     constructing = []
     for imp, b in sua + solve:
-        cons = result_constructions(b)
-        for cb in prog.closures_of(b):
-            cons += result_constructions(cb)
+        cons = constructions_ctx(prog, b)
         if not cons:
             # must delegate: the returned value is the result of a SatSolver solve method
             os_ = [o for o in origins(b, {"l": 0, "p": []}, transparent=()) if o.kind == "call"]
@@ -266,9 +307,8 @@ def rule_verdict_tables(ctx, strict_parser=True):
         constructing.append((imp, b, cons))
         vplaces = set()
         seen_variants = {}
-        for s, variant in cons:
-            conds = conditions(s.body, s.bb)
-            v = _verdict_of(s.body, conds)
+        for s, variant, conds, cbody in cons:
+            v = _verdict_of(cbody, conds)
             vplaces.update(v.keys())
             verdicts = set(v.values())
             seen_variants.setdefault(variant, []).append(verdicts)
@@ -281,7 +321,8 @@ def rule_verdict_tables(ctx, strict_parser=True):
                 r.ok(anchor, "Unknown built under %s" % sorted(verdicts), s.loc())
         for variant in ("Satisfiable", "Unsatisfiable", "Unknown"):
             r.check(variant in seen_variants, "%s|%s" % (b.id, variant), "never-built", "%s is constructed" % variant, "%s is never constructed by this back end" % variant, b.loc())
-        r.check(any("none" in vs for vs in seen_variants.get("Unknown", [])), "%s|Unknown" % b.id, "none-not-unknown", "no verdict -> Unknown", "there is no Unknown construction under 'no verdict'", b.loc())
+        none_ok = any("none" in vs for vs in seen_variants.get("Unknown", [])) or _none_edge_builds_unknown(cons)
+        r.check(none_ok, "%s|Unknown" % b.id, "none-not-unknown", "no verdict -> Unknown", "there is no Unknown construction under 'no verdict'", b.loc())
         r.check(len(vplaces) == 1, b.id, "verdict-places=%d" % len(vplaces), "one verdict variable", "constructions are conditioned on %d different Option<bool> places" % len(vplaces), b.loc())
     r.floor(len(constructing), 2, "SatSolver impls that construct verdicts (embedded + buffered)")
     return constructing
@@ -362,7 +403,7 @@ def rule_reply_parser(ctx):
     sua, _ = satsolver_impls(prog)
     target = None
     for imp, b in sua:
-        cons = result_constructions(b)
+        cons = constructions_ctx(prog, b)
         if cons and any(callee_matches(callee_of(s), r"BufRead::lines$|BufRead::read_line$") for s in b.calls()):
             target = (b, cons)
     if not r.require_anchor(target, "SatSolver impl parsing a textual reply (BufRead::lines)"):
@@ -370,8 +411,10 @@ def rule_reply_parser(ctx):
     b, cons = target
     # --- verdict variable
     vlocal = None
-    for s, variant in cons:
-        v = _verdict_of(b, conditions(b, s.bb))
+    for s, variant, conds, cbody in cons:
+        if cbody is not b:
+            continue
+        v = _verdict_of(b, conds)
         for k in v:
             vlocal = k
     if not r.require_anchor(vlocal is not None, "verdict variable (Option<bool>) of the reply parser"):
@@ -414,27 +457,20 @@ def rule_reply_parser(ctx):
                 k = op_const(o.site.node["rv"]["ops"][0])
                 if k is not None and "bool" in k:
                     val = k["bool"]
-        tests = [t for t in (str_test_of(b, c) for c in conditions(b, s.bb)) if t]
+        tests = [t for t in (norm_test(str_test_of(b, c)) for c in conditions(b, s.bb)) if t]
         want = "s SATISFIABLE" if val else "s UNSATISFIABLE"
         ok = val is not None and (("eq", want, True) in tests)
         r.check(ok, b.id + "|status=%s" % val, "guard=%s" % sorted(t for t in tests if t[2]), "status %s set only on the exact line %r" % (val, want), "status %s is set under %s, not under line == %r" % (val, [t for t in tests if t[2]], want), s.loc())
     # --- flags required for Satisfiable
-    sat_sites = [s for s, v in cons if v == "Satisfiable"]
-    for s in sat_sites:
-        conds = conditions(b, s.bb)
+    sat_sites = [(s, conds, cbody) for s, v, conds, cbody in cons if v == "Satisfiable"]
+    for s, conds, cbody in sat_sites:
         flag_roles = set()
         for c in conds:
-            if c.is_discr or c.place["p"] or b.local_ty(c.place["l"]) != "bool" or not c.is_true():
+            if cbody is not b or c.is_discr or c.place["p"] or b.local_ty(c.place["l"]) != "bool" or not c.is_true():
                 continue
-            # resolve copies:  _136 = copy _55
-            src = c.place["l"]
-            for o in origins(b, c.place, transparent=()):
-                pass
-            roots = set()
-            seen, _, _ = data_deps(b, c.place, through_calls=False)
-            for l in seen:
-                if b.local_name(l) is not None and b.local_ty(l) == "bool":
-                    roots.add(l)
+            # the named flags that are certainly true when this condition is (through `a && b` and copies)
+            roots = set(flow.truth_implies(b, c.place["l"]) or ())
+            roots = {l for l in roots if b.local_ty(l) == "bool"}
             for l in roots:
                 role = flag_role(prog, b, l)
                 if role:
@@ -445,7 +481,7 @@ def rule_reply_parser(ctx):
     # --- unrecognised line -> panic
     found = False
     for bb in b.diverging_blocks():
-        tests = [t for t in (str_test_of(b, c) for c in conditions(b, bb)) if t]
+        tests = [t for t in (norm_test(str_test_of(b, c)) for c in conditions(b, bb)) if t]
         neg = {(t[0], t[1]) for t in tests if not t[2]}
         pos = {(t[0], t[1]) for t in tests if t[2]}
         if {("eq", "s SATISFIABLE"), ("eq", "s UNSATISFIABLE"), ("starts_with", "v "), ("is_empty", None)} <= neg:
@@ -455,7 +491,7 @@ def rule_reply_parser(ctx):
     if not found:
         r.violation(b.id + "|else-chain", "no-panic", "no panic is reached by a line that is neither a status, value, comment nor empty line", b.loc())
     # accepted line classes: every string test on the line must be in the known table
-    allowed = {("eq", "s SATISFIABLE"), ("eq", "s UNSATISFIABLE"), ("starts_with", "v "), ("starts_with", "c "), ("ne", "c"), ("ne", "v"), ("eq", "c"), ("eq", "v"), ("is_empty", None)}
+    allowed = {("eq", "s SATISFIABLE"), ("eq", "s UNSATISFIABLE"), ("starts_with", "v "), ("starts_with", "c "), ("eq", "c"), ("eq", "v"), ("is_empty", None)}
     tests_all = set()
     for s in b.calls():
         c = callee_of(s)
@@ -466,8 +502,20 @@ def rule_reply_parser(ctx):
                 for oo in origins(b, a):
                     if oo.kind == "const" and "str" in oo.data:
                         lit = oo.data["str"]
-            tests_all.add((nm, lit))
+            tests_all.add(norm_test((nm, lit, True))[:2])
     r.check(tests_all <= allowed, b.id + "|line-classes", "extra=%s" % sorted(tests_all - allowed, key=str), "line classes tested: %s" % sorted(tests_all, key=str), "reply parser accepts line classes outside the DIMACS output grammar: %s" % sorted(tests_all - allowed, key=str), b.loc())
+
+
+def norm_test(t):
+    """canonical form of a string test: `ne` is a negated `eq`, `== ""` is `is_empty`"""
+    if not t:
+        return t
+    kind, lit, truth = t
+    if kind == "ne":
+        kind, truth = "eq", not truth
+    if kind == "eq" and lit == "":
+        kind, lit = "is_empty", None
+    return (kind, lit, truth)
 
 
 def flag_role(prog, fn_body, local):
@@ -482,7 +530,7 @@ def flag_role(prog, fn_body, local):
         conds = conditions(w.body, w.bb)
         role = None
         for c in conds:
-            t = str_test_of(w.body, c)
+            t = norm_test(str_test_of(w.body, c))
             if t and t[2] and t[0] == "starts_with" and t[1] == "v ":
                 role = "value-line"
         for c in conds:
